@@ -5,7 +5,7 @@ import Amgcl.Model.SmoothedAggregation
 `Model/SmoothedAggregation.lean` starts the fill loop from `std::vector<ptrdiff_t> marker(P->ncols, -1)`.  In the code
 each OpenMP thread owns one marker array and processes an increasing sequence of rows with it, so a row is computed on
 whatever the previous rows of the same thread left in the array.  Here the starting marker is arbitrary
-(`smoothProlongationFrom`, `saCountsFrom`); `Properties/C10b.lean` proves that the result is the same for all
+(`smoothProlongationFrom`, `saCountsFrom`); `Properties/C10c.lean` proves that the result is the same for all
 starting markers whose entries are below the first position / first row index (in particular for `-1` everywhere and for
 the state left behind by any earlier rows), and exhibits a starting marker with a larger (uninitialised) entry for
 which the row differs.
